@@ -102,6 +102,8 @@ class C15(Check):
                 sc = make_scenario(rng)
                 fl = rng.choice(["ser", "par", "par"])
                 args = dict(sc, maxk=400 if quick else 2000, kseed=rng.randrange(1 << 30), budget_ms=6000 if quick else 40000)
+                if rng.random() < 0.3:
+                    args["mus"] = rng.choice([2, 3, 4])  # hook H5: chunked BatchUnion (its own cancel check and progress credit)
                 if fl == "par":
                     args.update({"W": rng.choice([1, 2, 4, 8]), "stay": rng.choice([30, 60, 85]), "own": 70,
                                  "seed": rng.randrange(1, 1 << 30), "thr": rng.choice([64, 64, 16])})
